@@ -55,6 +55,7 @@ pub struct FeedCfg {
 impl FeedCfg {
 	/// swarm: each run enables a random subset of regimes
 	pub fn swarm(r: &mut Rng, window: usize, fault_free: bool) -> FeedCfg {
+		let window = window.min(5000);
 		let mut regimes: Vec<Regime> = Vec::new();
 		if fault_free {
 			for g in CALM {
